@@ -332,6 +332,10 @@ where
             Filter::BorrowedDataSets(_, FilterMode::All, _) => {
                 unreachable!("not handled by this iterator but by FilterAllIter")
             }
+            Filter::DataSets(handles, FilterMode::Any, _) => handles.contains(&dataset.handle()),
+            Filter::BorrowedDataSets(handles, FilterMode::Any, _) => {
+                handles.contains(&dataset.handle())
+            }
             Filter::AnnotationSubStore(substore) => {
                 if let Some(substore) = substore {
                     dataset.substores().any(|x| x.handle() == *substore)
